@@ -6,12 +6,12 @@ package main
 
 import (
 	"fmt"
-	"sort"
 	"go/constant"
 	"go/token"
 	"go/types"
 	"os"
 	"path/filepath"
+	"sort"
 	"strings"
 
 	"golang.org/x/tools/go/ssa"
@@ -433,55 +433,85 @@ func (f *framing) ruleFetchReturns(rule string, o fetchOpts) {
 				"the fetcher can return no message although bytes have been consumed: they are lost")
 			// its error must be the input error
 		case func() bool { _, ok := f.nonRTCMArg(msg); return ok }():
-			x, _ := f.nonRTCMArg(msg)
-			if A[x] {
-				_, old := f.superseded(A, x, r)
-				c.Check(!old, rule, label+":returns-whole-buffer", r.Pos(), "non-RTCM message carries the whole current frame buffer", "a stale frame buffer is returned")
-			} else if sl, ok := x.(*ssa.Slice); ok && A[sl.X] {
-				// frame[:len-1] with push-back of the withheld byte
-				hiOK := sl.Low == nil && sl.High != nil && f.A.Lin(sl.High).Equal(f.A.LenOf(sl.X).AddConst(-1))
-				var push ssa.Instruction
-				for _, p := range pushes {
-					if !instrDominates(p, r) {
-						continue
-					}
-					// paired with this exit: no other return can follow the push
-					rr := r
-					q := pathQuery{goal: func(i ssa.Instruction) bool {
-						x, ok := i.(*ssa.Return)
-						return ok && x != rr
-					}}
-					if path, _ := q.search(p.Block(), instrIndex(p)); path == nil {
-						push = p
-					}
+			x0, _ := f.nonRTCMArg(msg)
+			// the wrapped buffer may be a merge of alternatives (a helper that returns either the whole
+			// buffer or the trimmed one): each incoming alternative is checked under its own path
+			type altT struct {
+				x  ssa.Value
+				at *ssa.BasicBlock
+			}
+			alts := []altT{{x0, r.Block()}}
+			if phi, ok := x0.(*ssa.Phi); ok && !A[x0] {
+				alts = nil
+				for i, e := range phi.Edges {
+					alts = append(alts, altT{e, phi.Block().Preds[i]})
 				}
-				okPush := false
-				if push != nil {
-					usedPush[push] = true
-					k, isC := constInt(push.(*ssa.Call).Call.Args[1])
-					// the withheld byte equals the pushed constant
-					for _, ft := range dominatingFacts(r.Block()) {
-						if fx, fy, equal, ok := eqFact(ft); ok && equal {
-							if ld, ok := fx.(*ssa.UnOp); ok && ld.Op == token.MUL {
-								if ia, ok := ld.X.(*ssa.IndexAddr); ok && trivialPhi(ia.X) == trivialPhi(sl.X) && f.A.Lin(ia.Index).Equal(f.A.LenOf(sl.X).AddConst(-1)) {
-									if k2, ok := constInt(fy); ok && isC && k2 == k {
-										okPush = true
+			}
+			for ai, al := range alts {
+				x, at := al.x, al.at
+				alt := ""
+				if len(alts) > 1 {
+					alt = fmt.Sprintf(":alt%d", ai+1)
+				}
+				if A[x] {
+					_, old := f.superseded(A, x, r)
+					c.Check(!old, rule, label+alt+":returns-whole-buffer", r.Pos(), "non-RTCM message carries the whole current frame buffer", "a stale frame buffer is returned")
+				} else if sl, ok := x.(*ssa.Slice); ok && A[sl.X] {
+					// frame[:len-1] with push-back of the withheld byte
+					hiOK := sl.Low == nil && sl.High != nil && f.A.Lin(sl.High).Equal(f.A.LenOf(sl.X).AddConst(-1))
+					var push ssa.Instruction
+					for _, p := range pushes {
+						if !(p.Block() == at || p.Block().Dominates(at) || (at == r.Block() && instrDominates(p, r))) {
+							continue
+						}
+						// paired with this exit: no other return can follow the push
+						rr := r
+						q := pathQuery{goal: func(i ssa.Instruction) bool {
+							x, ok := i.(*ssa.Return)
+							return ok && x != rr
+						}}
+						if path, _ := q.search(p.Block(), instrIndex(p)); path == nil {
+							push = p
+						}
+					}
+					okPush := false
+					if push != nil {
+						usedPush[push] = true
+						k, isC := constInt(push.(*ssa.Call).Call.Args[1])
+						// the withheld byte equals the pushed constant
+						for _, ft := range append(edgeFactsInto(at, r.Block()), dominatingFacts(at)...) {
+							if fx, fy, equal, ok := eqFact(ft); ok && equal {
+								if ld, ok := fx.(*ssa.UnOp); ok && ld.Op == token.MUL {
+									if ia, ok := ld.X.(*ssa.IndexAddr); ok && trivialPhi(ia.X) == trivialPhi(sl.X) && f.A.Lin(ia.Index).Equal(f.A.LenOf(sl.X).AddConst(-1)) {
+										if k2, ok := constInt(fy); ok && isC && k2 == k {
+											okPush = true
+										}
 									}
 								}
 							}
 						}
 					}
+					c.Check(hiOK && okPush, rule, label+alt+":withholds-pushed-back-byte", r.Pos(), "returns frame[:len-1] and pushes back the constant that frame[len-1] was found equal to",
+						"the fetcher trims the buffer without pushing back exactly the trimmed byte: a byte is lost, duplicated or altered")
+				} else {
+					c.Fail(rule, label+alt+":returns-whole-buffer", r.Pos(), "refuted", "the non-RTCM message does not carry the whole frame buffer")
 				}
-				c.Check(hiOK && okPush, rule, label+":withholds-pushed-back-byte", r.Pos(), "returns frame[:len-1] and pushes back the constant that frame[len-1] was found equal to",
-					"the fetcher trims the buffer without pushing back exactly the trimmed byte: a byte is lost, duplicated or altered")
-			} else {
-				c.Fail(rule, label+":returns-whole-buffer", r.Pos(), "refuted", "the non-RTCM message does not carry the whole frame buffer")
 			}
 			c.Check(isNilConst(errv), rule, label+":nil-error", r.Pos(), "delivered with a nil error (the stream handler forwards it)",
 				"a message is returned together with an input error: the stream handler treats \"done\" as end of input and drops the message")
 			// non-empty
 			if arg, _ := f.nonRTCMArg(msg); arg != nil {
-				c.Check(f.A.Prove(r.Block(), GE(f.A.LenOf(arg), LinConst(1))), rule, label+":non-empty", r.Pos(), "len(RawData) >= 1", "an empty message can be delivered")
+				nonEmpty := f.A.Prove(r.Block(), GE(f.A.LenOf(arg), LinConst(1)))
+				if !nonEmpty && len(alts) > 1 {
+					// every alternative is non-empty on its own path
+					nonEmpty = true
+					for _, al := range alts {
+						if !f.A.Prove(al.at, GE(f.A.LenOf(al.x), LinConst(1))) {
+							nonEmpty = false
+						}
+					}
+				}
+				c.Check(nonEmpty, rule, label+":non-empty", r.Pos(), "len(RawData) >= 1", "an empty message can be delivered")
 			}
 		default:
 			// result of the single-frame decoder on the current buffer
@@ -708,6 +738,21 @@ func pureOfArgs(P *Prog, fn *ssa.Function, buf ssa.Value, call *ssa.Call, depth 
 		}
 	})
 	return pure
+}
+
+// edgeFactsInto: the branch fact carried by the edge from block p into block b (if p ends in an If).
+func edgeFactsInto(p, b *ssa.BasicBlock) []EdgeFact {
+	if p == b {
+		return nil
+	}
+	if ifi, ok := lastInstr(p).(*ssa.If); ok && len(p.Succs) == 2 && p.Succs[0] != p.Succs[1] {
+		for k, s := range p.Succs {
+			if s == b {
+				return []EdgeFact{{ifi.Cond, k == 0, p}}
+			}
+		}
+	}
+	return nil
 }
 
 // ruleExactCount: the framer hands the decoder exactly L+6 bytes and the
